@@ -1,1 +1,45 @@
 // in-crate Kani harnesses included into the real crate under cfg(kani) (see MANIFEST.hooks)
+// C05 (d): AmzDate::parse — the private fields are visible here.
+mod verif_kani_amz_date {
+    use super::*;
+
+    fn utf8_ok(_v: &[u8]) -> Result<(), core::str::Utf8Error> {
+        Ok(())
+    }
+
+    /// All 16-byte 7-bit inputs: accepted iff shape dddddddd'T'dddddd'Z' (reference written from the format), and
+    /// then every field equals the decimal value of its digits as read.
+    #[kani::proof]
+    #[kani::unwind(18)]
+    #[kani::stub(core::str::validations::run_utf8_validation, utf8_ok)]
+    fn c05_amzdate_parse_fields() {
+        let b: [u8; 16] = kani::any();
+        let mut shape = true;
+        let mut k = 0;
+        while k < 16 {
+            kani::assume(b[k] < 128);
+            let ok = match k {
+                8 => b[k] == b'T',
+                15 => b[k] == b'Z',
+                _ => b[k] >= b'0' && b[k] <= b'9',
+            };
+            shape = shape && ok;
+            k += 1;
+        }
+        let v = |i: usize| (b[i] as u32).wrapping_sub(b'0' as u32);
+        match AmzDate::parse(core::str::from_utf8(&b).unwrap()) {
+            Ok(d) => {
+                assert!(shape);
+                assert!(d.year as u32 == v(0) * 1000 + v(1) * 100 + v(2) * 10 + v(3));
+                assert!(d.month as u32 == v(4) * 10 + v(5));
+                assert!(d.day as u32 == v(6) * 10 + v(7));
+                assert!(d.hour as u32 == v(9) * 10 + v(10));
+                assert!(d.minute as u32 == v(11) * 10 + v(12));
+                assert!(d.second as u32 == v(13) * 10 + v(14));
+            }
+            Err(_) => assert!(!shape),
+        }
+        kani::cover!(shape);
+        kani::cover!(!shape);
+    }
+}
